@@ -17,7 +17,7 @@
      - the string-literal codec and the identifier quoting codec round-trip (C06_literal_roundtrip,
        C06_ident_roundtrip; ASCII contents, see Model/ExprPrint.v).
    REFUTED, with the witness that is the corpus entry of the finding: the printer of the pinned tree (no
-   parentheses; IS NOT NULL printed IS NULL; reserved words unquoted; Ctrl-Z escaped as \Z) — all four repaired in
+   parentheses; IS NOT NULL printed IS NULL; reserved words unquoted; Ctrl-Z escaped as \Z; a leading quote written as two quotes) — all five repaired in
    /repo — and the two unrepaired behaviours of the current tree (a quoted identifier containing a dot is written
    raw; NUL is dropped from string literals).
    NOT covered by a theorem (oracle only, see design/C06.md): function calls, CASE, tuples, sub-queries; the statement
@@ -64,7 +64,7 @@ Print Assumptions C06_format_idempotent.
 
 Theorem C06_literal_roundtrip :
   forall cf s rest,
-    d_ctrlz_escape cf = false -> (d_drop_nul cf = true -> has_char (ch 0) s = false) ->
+    d_ctrlz_escape cf = false -> d_triple_quote cf = false -> (d_drop_nul cf = true -> has_char (ch 0) s = false) ->
     not_quote_head c_quote rest ->
     read_lit_text (lit_text cf s ++ rest)%string = Some (s, rest).
 Proof. exact literal_roundtrip. Qed.
@@ -95,9 +95,13 @@ Theorem C06_refuted_dot_safe :
 Proof. exact refuted_dot_safe. Qed.
 Print Assumptions C06_refuted_dot_safe.
 
-Theorem C06_refuted_ctrlz_escape : exists s, read_lit_text (lit_text (CFlags true false) s) <> Some (s, ""%string).
+Theorem C06_refuted_ctrlz_escape : exists s, read_lit_text (lit_text (CFlags true false false) s) <> Some (s, ""%string).
 Proof. exact refuted_ctrlz_escape. Qed.
 Print Assumptions C06_refuted_ctrlz_escape.
+
+Theorem C06_refuted_triple_quote : exists s, read_lit_text (lit_text (CFlags false false true) s) <> Some (s, ""%string).
+Proof. exact refuted_triple_quote. Qed.
+Print Assumptions C06_refuted_triple_quote.
 
 Theorem C06_refuted_drop_nul : exists s, read_lit_text (lit_text codec_tree s) <> Some (s, ""%string).
 Proof. exact refuted_drop_nul. Qed.
